@@ -124,9 +124,11 @@ class BaseProperty(base.BaseObject):
             print(exc)
             self._id = str(uuid.uuid4())
 
-        # Use id if no name was provided.
+        # Use id if no name was provided. A name is always text.
         if not name:
             name = self._id
+        elif not isinstance(name, str):
+            name = str(name)
 
         self._parent = None
         self._name = name
@@ -232,6 +234,10 @@ class BaseProperty(base.BaseObject):
         if not new_name:
             self._name = self._id
             return
+
+        # A name is always text.
+        if not isinstance(new_name, str):
+            new_name = str(new_name)
 
         curr_parent = self.parent
         if hasattr(curr_parent, "properties") and new_name in curr_parent.properties:
